@@ -404,7 +404,13 @@ class FileStorage(
         with the index.  Any invalid record records or inconsistent
         object positions cause zero to be returned.
         """
-        r = self._check_sanity(index, pos)
+        try:
+            r = self._check_sanity(index, pos)
+        except (CorruptedError, ValueError, OSError):
+            # Following a stale or damaged index into the file can fail in
+            # many ways (seek before the start of the file, short or
+            # undecodable headers).  All of them mean: don't trust the index.
+            r = 0
         if not r:
             logger.warning("Ignoring index for %s", self._file_name)
         return r
